@@ -416,6 +416,21 @@ struct Out {
 }
 
 impl Out {
+    fn absorb(&mut self, o: Out) {
+        for (k, n) in o.counters {
+            *self.counters.entry(k).or_insert(0) += n;
+        }
+        for (k, n) in o.outcomes {
+            *self.outcomes.entry(k).or_insert(0) += n;
+        }
+        self.nontrivial.extend(o.nontrivial);
+        self.violations.extend(o.violations);
+        self.machinery.extend(o.machinery);
+        self.states += o.states;
+        self.transitions += o.transitions;
+        self.traces += o.traces;
+        self.evals += o.evals;
+    }
     fn c(&mut self, k: &str, n: u64) {
         *self.counters.entry(k.to_string()).or_insert(0) += n;
     }
@@ -700,7 +715,10 @@ fn replay_all(
     n: u64,
 ) -> Result<Vec<WorldlineState>, String> {
     (0..=n)
-        .map(|t| p.replay_worldline_state_at(w, base, wt(t)).map_err(|e| format!("tick {t}: {e:?}")))
+        .map(|t| match mc::catch(|| p.replay_worldline_state_at(w, base, wt(t))) {
+            Ok(r) => r.map_err(|e| format!("tick {t}: {e:?}")),
+            Err(msg) => Err(format!("tick {t}: panic: {msg}")),
+        })
         .collect()
 }
 
@@ -899,7 +917,18 @@ fn analyze(h: &History, cfg: Cfg) -> Out {
             // replay_worldline_state_at with checkpoints, every target
             for t in 0..=n {
                 out.evals += 1;
-                match pc.replay_worldline_state_at(w, base, wt(t)) {
+                let rr = match mc::catch(|| pc.replay_worldline_state_at(w, base, wt(t))) {
+                    Ok(rr) => rr,
+                    Err(msg) => {
+                        let head: String = msg.chars().take(60).collect();
+                        out.violations.push((
+                            format!("c07:replay_at:panic replaying through checkpoints:{head}"),
+                            json!({"case": {"history": hs, "variant": variant, "checkpoint_mask": mask, "tick": t}, "panic": msg}),
+                        ));
+                        continue;
+                    }
+                };
+                match rr {
                     Ok(s) => {
                         if let Some(field) = same_state(&engine, &s, &refs_s[t as usize], true) {
                             out.violations.push((
@@ -993,7 +1022,16 @@ fn analyze(h: &History, cfg: Cfg) -> Out {
             //       the runtime appends to its own provenance)
             if real_variant && (mask.count_ones() <= cfg.diverge_max_ckpts || mask + 1 == (1u32 << (n + 1))) {
                 for f in 0..n {
-                    diverge(&mut out, &engine, h, &hs, mask, &ckpts, f, &refs_s, &mut div_refs);
+                    let mut sub = Out::default();
+                    let res = mc::catch(|| diverge(&mut sub, &engine, h, &hs, mask, &ckpts, f, &refs_s, &mut div_refs));
+                    out.absorb(sub);
+                    if let Err(msg) = res {
+                        let head: String = msg.chars().take(60).collect();
+                        out.violations.push((
+                            format!("c07:diverged-child:panic during fork_strand/commit/seek on the child:{head}"),
+                            json!({"case": {"history": hs, "variant": variant, "site": format!("diverged-child@{f}"), "checkpoint_mask": mask}, "panic": msg}),
+                        ));
+                    }
                 }
             }
             lap!("diverge");
@@ -1289,47 +1327,6 @@ fn main() {
         r.finish();
     }
 
-    if std::env::var("C07_PROF").is_ok() {
-        let h = rebuild(&gen_dec("I0 T I1 T I2 T")).unwrap();
-        let base = &h.live[0];
-        let p = &h.rt.provenance;
-        let t0 = std::time::Instant::now();
-        let mut tot = 0usize;
-        for _ in 0..200 {
-            let mut c = PlaybackCursor::new(CursorId([1; 32]), wl(1), base.root().warp_id, CursorRole::Reader, base, wt(4));
-            c.seek_to(wt(3), p, base).unwrap();
-            tot += c.current_tick().as_u64() as usize;
-        }
-        println!("fresh+seek3: {:?}/iter", t0.elapsed() / 200);
-        let mut c = PlaybackCursor::new(CursorId([1; 32]), wl(1), base.root().warp_id, CursorRole::Reader, base, wt(4));
-        c.seek_to(wt(3), p, base).unwrap();
-        let t0 = std::time::Instant::now();
-        for _ in 0..200 {
-            tot += format!("{c:?}").len();
-        }
-        println!("debug cursor: {:?}/iter len {}", t0.elapsed() / 200, format!("{c:?}").len());
-        let t0 = std::time::Instant::now();
-        for _ in 0..200 {
-            tot += format!("{:?}", c.materialized_state().warp_state()).len();
-        }
-        println!("debug warp_state: {:?}/iter len {}", t0.elapsed() / 200, format!("{:?}", c.materialized_state().warp_state()).len());
-        let t0 = std::time::Instant::now();
-        for _ in 0..200 {
-            tot += c.materialized_state().clone().current_tick().as_u64() as usize;
-        }
-        println!("clone state: {:?}/iter", t0.elapsed() / 200);
-        let t0 = std::time::Instant::now();
-        for _ in 0..200 {
-            tot += c.current_state_root()[0] as usize;
-        }
-        println!("state_root: {:?}/iter", t0.elapsed() / 200);
-        let t0 = std::time::Instant::now();
-        for _ in 0..200 {
-            tot += mc::h(format!("{c:?}").as_bytes())[0] as usize;
-        }
-        println!("debug+hash: {:?}/iter {tot}", t0.elapsed() / 200);
-        std::process::exit(0);
-    }
     let max_len: u64 = r.pick(3, 5);
     let alphabet: u8 = r.pick(4, 5);
     let cfg = Cfg {
